@@ -49,6 +49,15 @@ MaskSet(m, mask) == {a \in AtomsOf(m) : (mask \div Pow2(a)) % 2 = 1}
 ErrName(n) == IF n = 0 THEN "0" ELSE IF n = 22 THEN "EINVAL" ELSE IF n = 18 THEN "EXDEV" ELSE IF n = 2 THEN "ENOENT" ELSE "other"
 FullNA == 8        \* FULL_NA of the recorder
 
+\* ---- NUMA nodes of a logged state (st.nodes = list of [OS index, local cpuset], st.anodes = allowed nodeset) ----
+NodeIdx(st) == {st.nodes[k][1] : k \in DOMAIN st.nodes}
+NodeCpusOf(m, st) == [n \in NodeIdx(st) |-> UNION {SetAtoms(m, st.nodes[k][2]) : k \in {j \in DOMAIN st.nodes : st.nodes[j][1] = n}}]
+IdxCap == 1024
+\* the indexes (up to IdxCap) of a logged set
+RangeIdx(rs) == UNION {rs[k][1] .. (IF rs[k][2] = -1 THEN IdxCap ELSE rs[k][2]) : k \in DOMAIN rs}
+\* the indexes of X that a union of atoms contains (a nodeset is passed as a union of atoms, like a cpuset)
+IdxInAtoms(m, S, X) == {x \in X : \E a \in S : m.lo[a + 1] <= x /\ (m.hi[a + 1] = -1 \/ x <= m.hi[a + 1])}
+
 OK0 == <<0, "0">>
 Einval == <<-1, "EINVAL">>
 Enoent == <<-1, "ENOENT">>
@@ -129,25 +138,32 @@ TRegister ==
         /\ cur' = e.st
   /\ UNCHANGED <<am, topo>>
 
-\* hwloc_topology_restrict(set, 0): EINVAL (and nothing changes) when no allowed PU would remain
+\* hwloc_topology_restrict(set, flags): the PUs that leave the topology are derived (RestrictOutcome, CpuKinds.tla part 1c) from
+\* the set, the flag word and the NUMA nodes that the state before the call reported; a refused call (EINVAL) changes nothing;
+\* after an accepted call the kinds partition what was registered on the PUs that are left
 TRestrict ==
   /\ IsEvent("restrict")
   /\ LET e == T[l]
          S == Range(e.S)
+         nidx == NodeIdx(cur)
+         anodes == RangeIdx(cur.anodes)
+         apus == SetAtoms(am, cur.allowed)
+         o == RestrictOutcome(topo, nidx, NodeCpusOf(am, cur), apus, anodes, e.flags, S, IdxInAtoms(am, S, nidx \cup anodes))
      IN /\ S \subseteq AtomsOf(am)
-        /\ e.flags = 0
-        /\ SetExact(am, e.after) /\ SetAtoms(am, e.after) = S
-        /\ IF S \cap SetAtoms(am, cur.allowed) = {}
+        /\ SetExact(am, e.after) /\ SetAtoms(am, e.after) = S           \* the caller's set is not modified
+        /\ IF e.ret # OK0
            THEN /\ e.ret = Einval
+                /\ RestrictRefused(o)
                 /\ e.st = cur
                 /\ UNCHANGED <<req, topo, mk>>
-           ELSE /\ e.ret = OK0
-                /\ topo' = topo \cap S
-                /\ SetAtoms(am, e.st.allowed) = SetAtoms(am, cur.allowed) \cap S
+           ELSE /\ ~o.bad /\ ~o.must
+                /\ topo' = o.pus
+                /\ SetAtoms(am, e.st.allowed) = apus \cap o.pus
                 /\ req' = ReqRestrict(req, topo')
                 /\ StateOK(am, e.st, req', topo')
                 /\ mk' = Model(RestrictDo(mk.ks, topo'))
                 /\ Mirrors(am, e.st, mk')
+                /\ (~Strict \/ NodeIdx(e.st) = o.nodes)               \* steering only: the nodes the model expects
         /\ cur' = e.st
   /\ UNCHANGED am
 
